@@ -74,5 +74,6 @@ if __name__ == "__main__":
     pid, tier = sys.argv[1], sys.argv[2]
     print(cfg_text(INSTANCES[pid][tier][0]))
 
-# depth at which decision histories are exported as scripts (S1), per property and tier
-EXPORT_DEPTH = {}
+# depth from which decision histories are exported as scripts (S1): one state in EXPORT_EVERY of those deeper than this
+EXPORT_DEPTH = {pid: {"quick": 6, "thorough": 6} for pid in INSTANCES}
+EXPORT_EVERY = {"quick": 53, "thorough": 17}
